@@ -44,6 +44,7 @@ type Violation struct {
 	Harness string     `json:"harness"`
 	Confirmed bool     `json:"confirmed"`
 	Native  string     `json:"native,omitempty"`
+	Obs     []string   `json:"observed,omitempty"`
 }
 
 type PathResult struct {
@@ -104,6 +105,7 @@ type Exec struct {
 	localSat    int
 	localUnsat  int
 	solGen      int
+	snaps       map[*ssa.Package]*pkgSnapshot
 	pathCount   int
 	funcs       map[string]int
 	onceDone    map[*Value]bool
@@ -466,7 +468,14 @@ func (ex *Exec) recordViolation(id, kind, detail string, m *Model) {
 			return
 		}
 	}
-	ex.viol = append(ex.viol, Violation{ID: id, Kind: kind, Detail: detail, Inputs: ex.inputValues(m), Harness: ex.harness, Params: ex.params})
+	v := Violation{ID: id, Kind: kind, Detail: detail, Inputs: ex.inputValues(m), Harness: ex.harness, Params: ex.params}
+	func() {
+		defer func() { recover() }()
+		for _, o := range ex.obs {
+			v.Obs = append(v.Obs, o.name+"="+ex.renderUnder(o.v, m))
+		}
+	}()
+	ex.viol = append(ex.viol, v)
 }
 
 func (ex *Exec) inputValues(m *Model) []InputRec {
